@@ -74,10 +74,13 @@ def check(run):
     for i, (a, b, same) in enumerate(pairs):
         ops = BIN if not q else run.rng.sample(BIN, 4)
         for op in ops:
-            plan.append(dict(nu=nu, a=a, b=b, same=same, op=op, px=run.rng.choice(U), py=run.rng.choice(U)))
+            # every other scenario is "blind": the operands are not observed before the call (an observation enumerates a concurrent
+            # set and promotes its dirty map, so the call would only ever meet tidy layouts); their contents come from twins
+            plan.append(dict(nu=nu, a=a, b=b, same=same, op=op, px=run.rng.choice(U), py=run.rng.choice(U), blind=(i % 2 == 1)))
     for a in operands:
         for n in range(0, nu + 2):
             plan.append(dict(nu=nu, a=a, b=a, same=True, op="RangeStop", n=n, px=1, py=1))
+            plan.append(dict(nu=nu, a=a, b=a, same=True, op="RangeStop", n=n, px=1, py=1, blind=True))
     for ctor in ("maps.Slice", "sync2.Slice", "maps.Keys", "sync2.Keys", "maps.Values", "sync2.Values"):
         for vals in [[], [1], [2, 2], [1, 2, 3], [3, 1, 3, 1], [2, 2, 2, 1]]:
             plan.append(dict(nu=nu, op="Ctor", ctor=ctor, vals=vals, px=1, py=1, same=False))
